@@ -56,8 +56,10 @@ type ostate struct {
 	pend      []string
 	comm      []string
 	size      int64
-	buffer    []string // ids reported and not yet flushed
-	consensus []string // every id ever reported
+	buffer    []string           // ids reported and not yet flushed
+	applied   map[int64][]string // height -> keys of the evidence of the block stored at that height
+	savedBy   map[int64]bool     // the state of that height was saved by ApplyBlock itself (before it died)
+	consensus []string           // every id ever reported
 }
 
 func (o *ostate) blk(h int64) (blkDef, bool) {
@@ -78,7 +80,7 @@ func (o *ostate) proves(e *oev) bool {
 	}
 	if e.kind == "lca" {
 		cfh, _ := strconv.ParseInt(e.m["cfh"], 10, 64)
-		return (e.m["ok"] == "1" || e.m["gen"] == "1") && e.h < o.storeH && cfh < o.storeH
+		return (e.m["ok"] == "1" || e.m["gen"] == "1") && e.h < o.storeH && cfh < o.storeH && twoThirdsSigned(e.m)
 	}
 	a, ok1 := oparseVote(e.m["a"])
 	bb, ok2 := oparseVote(e.m["b"])
@@ -99,6 +101,35 @@ func (o *ostate) proves(e *oev) bool {
 	}
 	return a.h == bb.h && a.r == bb.r && a.t == bb.t && a.addr == bb.addr && a.bid != bb.bid &&
 		val.power == vp && total(b) == tvp && e.m["sa"] == "1" && e.m["sb"] == "1"
+}
+
+// twoThirdsSigned: from the tokens of the line alone (validator set cv = addr:power:pk, slots
+// cs = flag:addr:sig where sig = s<pk> iff the signature really verifies under that key): the
+// for-block slots with a signature valid under the member of the same position carry more than 2/3
+// of the conflicting set's power - necessary for VerifyCommitLight whatever total anybody claims
+func twoThirdsSigned(m map[string]string) bool {
+	if m["cv"] == "-" || m["cs"] == "-" {
+		return false
+	}
+	cv := strings.Split(m["cv"], ",")
+	cs := strings.Split(m["cs"], ";")
+	if len(cv) != len(cs) {
+		return false
+	}
+	var total, got int64
+	for i := range cv {
+		v := strings.Split(cv[i], ":")
+		s := strings.Split(cs[i], ":")
+		if len(v) != 3 || len(s) != 3 {
+			return false
+		}
+		p, _ := strconv.ParseInt(v[1], 10, 64)
+		total += p
+		if s[0] == "2" && s[2] == "s"+v[2] {
+			got += p
+		}
+	}
+	return 3*got > 2*total
 }
 
 func has(l []string, k string) bool {
@@ -203,7 +234,95 @@ func oracle(c core.Case, out []string) []core.Finding {
 		}
 		prePend, preComm := o.pend, o.comm
 		var committedNow []string
+		abHeights := func() (sh, bh int64) {
+			for _, t := range strings.Fields(out[i]) {
+				if strings.HasPrefix(t, "sh=") {
+					sh, _ = strconv.ParseInt(t[3:], 10, 64)
+				}
+				if strings.HasPrefix(t, "bh=") {
+					bh, _ = strconv.ParseInt(t[3:], 10, 64)
+				}
+			}
+			return
+		}
 		switch f[0] {
+		case "abinit":
+			h, _ := strconv.ParseInt(m["h"], 10, 64)
+			o.storeH, o.inited = h, true
+			if b, ok := o.blk(h); ok {
+				o.H, o.T = h, b.t
+			}
+			o.applied, o.savedBy = map[int64][]string{}, map[int64]bool{}
+		case "apply":
+			h, _ := strconv.ParseInt(m["h"], 10, 64)
+			sh, bh := abHeights()
+			o.storeH = bh
+			if bh != h { // the proposal was rejected: nothing stored
+				break
+			}
+			var keys []string
+			if m["ev"] != "-" {
+				for _, id := range strings.Split(m["ev"], ",") {
+					if e := o.defs[id]; e != nil {
+						keys = append(keys, e.key)
+					}
+				}
+			}
+			if o.applied == nil {
+				o.applied, o.savedBy = map[int64][]string{}, map[int64]bool{}
+			}
+			o.applied[h], o.savedBy[h] = keys, sh == h
+			o.buffer = nil
+			if res == "ok" {
+				if b, ok := o.blk(h); ok {
+					o.H, o.T = h, b.t
+				}
+				committedNow = keys
+				for _, k := range keys {
+					if !has(comm, k) {
+						add("pool.Update.committed-not-marked", "evidence of the applied block is not in the committed key space: "+k)
+					}
+					if has(pend, k) {
+						add("pool.Update.committed-still-pending", "evidence of the applied block is still pending: "+k)
+					}
+				}
+			} else { // crash: the dead process is judged at the restart
+				o.size, o.pend, o.comm = size, pend, comm
+				continue
+			}
+		case "abrestart":
+			if res != "ok" {
+				add("pool.restart.fails", "restart over the same databases failed: "+out[i])
+				break
+			}
+			sh, bh := abHeights()
+			o.storeH = bh
+			if b, ok := o.blk(sh); ok {
+				o.H, o.T = sh, b.t
+			}
+			o.buffer = nil
+			// "used once" across crashes: evidence of every block the node considers applied is committed
+			for h, keys := range o.applied {
+				if h > sh {
+					continue
+				}
+				for _, k := range keys {
+					if has(comm, k) && !has(pend, k) {
+						continue
+					}
+					committedNow = append(committedNow, k)
+					if o.savedBy[h] {
+						add("pool.restart.committed-evidence-pending-after-crash", fmt.Sprintf("block %d (evidence %s) was applied and its state saved before the crash; after the restart the evidence is not marked committed (pending: %v): it will be proposed and accepted a second time", h, k, has(pend, k)))
+					} else {
+						add("pool.restart.committed-evidence-pending-after-replay", fmt.Sprintf("block %d (evidence %s) was stored, the process died before the pool update, the handshake applied it with an empty evidence pool: after the restart the evidence is not marked committed (pending: %v)", h, k, has(pend, k)))
+					}
+				}
+			}
+			for _, k := range preComm {
+				if !has(comm, k) {
+					add("pool.restart.loses-committed", "committed marker lost over a restart: "+k)
+				}
+			}
 		case "init":
 			h, _ := strconv.ParseInt(m["h"], 10, 64)
 			o.storeH, o.inited = h, true
